@@ -160,7 +160,8 @@ func execSig(x *Exec, toks []string) string {
 		c := parseAddrTok(toks[1])
 		msg := &sigtypes.MsgPublishReferencePayloadLink{Creator: c.s, Key: unesc(toks[2]), Value: unesc(toks[3])}
 		res, _ := x.deliver(msg.ValidateBasic, func(ctx sdk.Context) error {
-			_, err := ms.PublishReferencePayloadLink(sdk.WrapSDKContext(ctx), msg)
+			r_, err := ms.PublishReferencePayloadLink(sdk.WrapSDKContext(ctx), msg)
+			noteResp(r_, err)
 			return err
 		})
 		if res == "panic" {
@@ -185,7 +186,8 @@ func execSig(x *Exec, toks []string) string {
 		}
 		msg := &sigtypes.MsgStoreSignature{Creator: c.s, StorageKey: unesc(toks[2]), SignatureJSON: js}
 		res, _ := x.deliver(msg.ValidateBasic, func(ctx sdk.Context) error {
-			_, err := ms.StoreSignature(sdk.WrapSDKContext(ctx), msg)
+			r_, err := ms.StoreSignature(sdk.WrapSDKContext(ctx), msg)
+			noteResp(r_, err)
 			return err
 		})
 		if res == "panic" {
@@ -302,7 +304,8 @@ func execSig(x *Exec, toks []string) string {
 		}
 		msg := &sigtypes.MsgCreateAccount{Creator: c.s, AccAddressString: a.s, PubKeyString: pkJSON}
 		res, _ := x.deliver(msg.ValidateBasic, func(ctx sdk.Context) error {
-			_, err := ms.CreateAccount(sdk.WrapSDKContext(ctx), msg)
+			r_, err := ms.CreateAccount(sdk.WrapSDKContext(ctx), msg)
+			noteResp(r_, err)
 			return err
 		})
 		if res == "panic" {
@@ -513,6 +516,12 @@ func genSig(g *Gen, n int) {
 				js, fs = fmt.Sprintf("{\"algorithm\":%s,\"certificate\":%s}", jsonStr(alg), jsonStr(cert)), ""
 			case 2:
 				js, fa = fmt.Sprintf("{\"signature\":%s,\"algorithm\":%s,\"certificate\":%s}", jsonStr(sig), g.pick("5", "null", "true", "{}", "[1]"), jsonStr(cert)), ""
+			case 3:
+				// only case variants of a key, with different values: the exact key is absent, so the field
+				// is empty - whatever order a map of the members is walked in
+				js, fs = fmt.Sprintf("{\"Signature\":%s,\"SIGNATURE\":%s,\"sIgnature\":%s,\"algorithm\":%s,\"certificate\":%s}",
+					jsonStr(sig), jsonStr("variant-b"), jsonStr("variant-c"), jsonStr(alg), jsonStr(cert)), ""
+				g.count("shape/case-variant-keys")
 			}
 			sk := storageKey
 			if g.chance(0.07) {
